@@ -66,6 +66,9 @@ FaultEmpty(d) == buf' = Upd(buf, d, Live(<<>>, Self))
 ConstructFault(s, v) ==
     /\ ConstructG(buf, s) /\ IsLong(L, v) /\ buf' = buf
     /\ act' = [n |-> "fault construct", a |-> s, b |-> 0, len |-> Len(v), tag |-> TagOf(v)]
+ConstructFillFault(s, v) ==
+    /\ ConstructG(buf, s) /\ IsLong(L, v) /\ buf' = buf
+    /\ act' = [n |-> "fault constructfill", a |-> s, b |-> 0, len |-> Len(v), tag |-> TagOf(v)]
 CopyConstructFault(d, s) ==
     /\ CopyConstructG(buf, d, s) /\ IsLong(L, buf[s].val) /\ buf' = buf
     /\ act' = [n |-> "fault copyconstruct", a |-> d, b |-> s, len |-> 0, tag |-> "-"]
@@ -88,7 +91,7 @@ Next ==
     \/ \E s \in Slots, n \in Lens : Allocate(s, n)
     \/ \E s \in Slots : Clear(s) \/ Destroy(s)
     \/ /\ WithFaults
-       /\ \/ \E s \in Slots, v \in Vals : ConstructFault(s, v)
+       /\ \/ \E s \in Slots, v \in Vals : ConstructFault(s, v) \/ ConstructFillFault(s, v)
           \/ \E d, s \in Slots : CopyConstructFault(d, s) \/ CopyAssignFault(d, s)
           \/ \E s \in Slots, n \in Lens : AllocateFault(s, n)
 
@@ -107,7 +110,7 @@ Touches == IF act'.n \in {"moveconstruct", "moveassign"} THEN {act'.a, act'.b}
 OnlyNamedObjectsChange == [][OnlyTouched(buf, buf', Touches)]_vars
 
 (* A failed allocation leaves the target with its old or the empty value.  *)
-FaultsAreClean == [][(act'.n \in {"fault construct", "fault copyconstruct", "fault copyassign", "fault allocate"})
+FaultsAreClean == [][(act'.n \in {"fault construct", "fault constructfill", "fault copyconstruct", "fault copyassign", "fault allocate"})
                        => FaultTargetOk(L, buf, buf', act'.a)]_vars
 
 ---------------------------------------------------------------------------
